@@ -667,7 +667,7 @@ def run(tier):
     decided = hist.get("linear", 0) + hist.get("superlinear", 0)
     full = sum(len(f[2]) for f in fams) + sum(len(f[2]) for f in pairs)
     if (n_rep < 12 or n_nest < 16 or len(pairs) < 256 or len(lex_names) < 20
-            or decided < 0.95 * len(results) or len(step_values) < len(results)
+            or decided < 0.95 * len(results) or 2 * len(step_values) < len(results)
             or accepted < 0.8 * full or len(funcs) < 100
             or lex_runs < 0.9 * len(LEX_SIZES) * len(lex_names)
             or len(run_res) < 100 or run_runs < 0.9 * len(F.RUN_SIZES) * len(run_res)
